@@ -506,4 +506,110 @@ func runC17Stacks(c *Ctx) {
 		stx.SafeClose(st)
 		os.RemoveAll(dir)
 	}
+	runC17StaleHandle(c)
+}
+
+// runC17StaleHandle: the chooser's answer must be applied to the list it was computed on.
+// A second handle is opened while the stack is being built, the writer then adds the
+// remaining tables (and, when the wrapper is available, compacts an explicit range), and
+// the second - now stale - handle calls AutoCompact. Whatever that call does, it must not
+// merge tables of a list in which no two adjacent tables share a size class.
+func runC17StaleHandle(c *Ctx) {
+	r := c.Rep
+	n := c.N(300, 6000)
+	for idx := 0; idx < n; idx++ {
+		if !c.Mine(idx) {
+			continue
+		}
+		rng := gen.NewRng(gen.Mix(c.Seed^0x17d, int64(idx)))
+		gcfg := gen.Cfg{SHA256: idx%2 == 1}
+		cfg := rtx.Config(gcfg)
+		hdr, ftr := 24, 68
+		if gcfg.SHA256 {
+			hdr, ftr = 28, 72
+		}
+		dir := c.TempDir(fmt.Sprintf("c17h-%d", idx))
+		func() {
+			defer os.RemoveAll(dir)
+			st, err := stx.Open(dir, cfg)
+			if err != nil {
+				return
+			}
+			defer func() { stx.SafeClose(st) }()
+			setAutoCompact(st, false)
+			if !haveAutoCompactSwitch {
+				return
+			}
+			ntab := 3 + rng.Intn(4)
+			openAt := 1 + rng.Intn(ntab-1)
+			var h2 *reftable.Stack
+			defer func() {
+				if h2 != nil {
+					stx.SafeClose(h2)
+				}
+			}()
+			// strictly decreasing classes with equal-class runs sprinkled in
+			k := 11
+			for i := 0; i < ntab; i++ {
+				if i == openAt {
+					h2, err = stx.Open(dir, cfg)
+					if err != nil {
+						return
+					}
+				}
+				if !rng.Chance(0.45) && k > 6 {
+					k--
+				}
+				L := (1 << uint(k)) + rng.Intn(1<<uint(k-1)) - 40
+				if c17Commit(st, i, L) != nil {
+					r.Inconclusive++
+					return
+				}
+			}
+			if haveCompactRange && rng.Chance(0.6) {
+				first := rng.Intn(ntab - 1)
+				last := first + 1 + rng.Intn(ntab-first-1)
+				if _, err := compactRange(st, first, last); err != nil {
+					return
+				}
+			}
+			if rng.Chance(0.4) {
+				if c17Commit(st, ntab, 1+rng.Intn(60)) != nil {
+					return
+				}
+			}
+			if h2 == nil {
+				return
+			}
+			before, _ := stx.ListNames(dir)
+			var usz []uint64
+			var classes []int
+			for _, nm := range before {
+				fi, err := os.Stat(filepath.Join(dir, nm))
+				if err != nil {
+					return
+				}
+				sz := uint64(fi.Size() - int64(hdr) - int64(ftr) + 1)
+				usz = append(usz, sz)
+				classes = append(classes, flog2(sz))
+			}
+			stale := fmt.Sprint(stx.Names(h2)) != fmt.Sprint(before)
+			aerr := rtx.Safe(func() error { return h2.AutoCompact() })
+			after, _ := stx.ListNames(dir)
+			r.Evaluations++
+			r.Count("stale_handle_autocompactions", 1)
+			cs := map[string]interface{}{"prop": "C17", "kind": "stale-handle-stack", "seed": c.Seed, "index": idx, "classes_on_disk": classes, "handle_was_stale": stale}
+			if rtx.IsPanic(aerr) {
+				r.Violate([]string{"C17"}, "stale-handle-autocompact-"+PanicSig(aerr), "AutoCompact through a stale handle panicked: "+PanicDetail(aerr), cs)
+				return
+			}
+			if fmt.Sprint(after) != fmt.Sprint(before) && !adjacentSameClass(usz) {
+				r.Violate([]string{"C17"}, "stale-handle-compacts-without-equal-class-neighbours", fmt.Sprintf("the list on disk had classes %v (no two adjacent tables share one); AutoCompact through a handle that was opened earlier (stale=%v) changed it from %d to %d tables: the suggestion was computed on another list than the one it was applied to", classes, stale, len(before), len(after)), cs)
+				return
+			}
+			if stale {
+				r.Nontrivial(rep.Hash("c17h", fmt.Sprint(c.Seed), fmt.Sprint(idx)))
+			}
+		}()
+	}
 }
